@@ -457,7 +457,7 @@ webSocketsHasDataInBuffer(rfbClientPtr cl)
 {
     ws_ctx_t *wsctx = (ws_ctx_t *)cl->wsctx;
 
-    if (wsctx && wsctx->readlen)
+    if (wsctx && wsctx->readlen > 0)  /* -1 = base64 error of the last chunk, nothing to read */
         return TRUE;
 
     return (cl->sslctx && rfbssl_pending(cl) > 0);
